@@ -135,8 +135,8 @@ def main():
         "version": 1,
         "setup_cmd": "./setup.sh",
         "hooks": {
-            "guard": "cargo feature `echo_verif` on crate warp-core (off by default)",
-            "enable": "harness crates depend on /repo/crates/warp-core with features [native_rule_bootstrap, trusted_runtime, host_test, footprint_enforce_release, echo_verif]; built by ./check via cargo build --release in /verif/harness",
+            "guard": "cargo feature `echo_verif` on crates warp-core and warp-wasm (off by default)",
+            "enable": "harness crates depend on /repo/crates/warp-core with features [native_rule_bootstrap, trusted_runtime, host_test, footprint_enforce_release, echo_verif] and on /repo/crates/warp-wasm with features [engine, echo_verif]; built by ./check via cargo build --release in /verif/harness",
             "baseline_off_cmd": "cd /repo && cargo nextest run --workspace --no-fail-fast --test-threads 8 --offline || cargo test --workspace --no-fail-fast --offline",
             "source_commits": hooks_commits,
             "add_only": True,
